@@ -124,6 +124,8 @@ def cxx_literal(t, v):
     """C++ expression for a state value of static type t (used to set model fields quietly)."""
     from . import gen_expr as ge
     from . import strings
+    if t == "variant":
+        return "QVariant(%s)" % cxx_literal(v[0], v[1])
     if t == ge.BOOL:
         return "true" if v else "false"
     if t == ge.INT:
